@@ -486,4 +486,33 @@ func VF_Doc_C04() {
 			vf.Assert(ib < a0, "C02 concurrent inserts at the same place appear newest first")
 		}
 	}
+	// phase 2: elements (possibly updated before) are deleted on a; once the
+	// delete has been received they appear on no copy, everything else stays
+	k := vf.Choice("del.pos", 4)
+	mode := vf.Choice("del.mode", 3) // 0: delete one; 1: update it, then delete it; 2: update it, then delete two
+	arr := child(a.doc, "arr")
+	if mode >= 1 {
+		_, eu := arr.UpdateManyInArray(k, "upd")
+		vf.Assert(eu == nil, "update succeeds")
+	}
+	n := 1
+	if mode == 2 {
+		n = 2
+	}
+	gone := append([]interface{}{}, ja[k:k+n]...)
+	_, ed := arr.DeleteManyInArray(k, n)
+	vf.Assert(ed == nil, "delete succeeds")
+	b.receive(a.flush())
+	vf.Reach("deleted")
+	ja2 := a.doc.ToJSON().(map[string]interface{})["arr"].([]interface{})
+	jb2 := b.doc.ToJSON().(map[string]interface{})["arr"].([]interface{})
+	vf.Assert(jsonDeepEq(ja2, jb2), "C01/C04 both replicas show the same array after the delete")
+	vf.Assert(len(jb2) == 5-n, "C04 exactly the deleted elements disappear")
+	for _, x := range jb2 {
+		vf.Assert(x != "upd", "C04 a deleted element appears on no copy after the delete has been received")
+		for _, g := range gone {
+			vf.Assert(x != g, "C04 a deleted element appears on no copy after the delete has been received")
+		}
+	}
+	vf.Assert(docInv(a.doc) && docInv(b.doc), "L3 invariants after the delete")
 }
